@@ -5,6 +5,7 @@
         states   : list of (s, timeout, action?, raises)
         resolve  : list of (s, e, kind, prog: list of (enter?, state), dest, raises)   kind 0 = internal, 1 = move
         models   : list of (m, initial state)
+        keys     : list of (m, runner key)   — the identity for the code as it is (id(model)); default m
         history  : list of ops: 0 <early: list of (m, e)>  |  1 m e
       → `T <records> L <leaked> X <tie> C <(model, final state) …>`
     c17mon <timeouts: list of (s, timeout)> <routes> <records>   → ok | reject
@@ -61,14 +62,16 @@ def op : P Op := do
     let m ← nat; let e ← nat
     pure (.ev m e)
 
-def mkCfg (rows : List StateRow) (onExc async : Bool) (tbl : List (Nat × Nat × Step)) : Timeout.Cfg :=
+def mkCfg (rows : List StateRow) (onExc async : Bool) (tbl : List (Nat × Nat × Step))
+    (keys : List (Nat × Nat)) : Timeout.Cfg :=
   let row := fun s => rows.find? (fun r => r.s = s)
   { timeout := fun s => (row s).elim 0 (·.timeout)
     action := fun s => (row s).bind (·.action)
     raises := fun s => (row s).elim false (·.raises)
     onExc := onExc
     async := async
-    resolve := fun s e => (tbl.find? (fun r => r.1 = s && r.2.1 = e)).map (·.2.2) }
+    resolve := fun s e => (tbl.find? (fun r => r.1 = s && r.2.1 = e)).map (·.2.2)
+    key := fun m => ((keys.find? (fun p => p.1 = m)).map (·.2)).getD m }
 
 def runCase : P String := do
   let rows ← list stateRow
@@ -76,9 +79,10 @@ def runCase : P String := do
   let async ← bool
   let tbl ← list resolveRow
   let models ← list (do let m ← nat; let s ← nat; pure (m, s))
+  let keys ← list (do let m ← nat; let k ← nat; pure (m, k))
   let h ← list op
   let cur := fun m => ((models.find? (fun p => p.1 = m)).map (·.2)).getD 0
-  let st : Timeout.St := Timeout.run (mkCfg rows onExc async tbl) h (Timeout.St.init cur)
+  let st : Timeout.St := Timeout.run (mkCfg rows onExc async tbl keys) h (Timeout.St.init cur)
   let curs := models.flatMap fun p => [p.1, st.cur p.1]
   pure s!"T {joinNats (st.log.length :: st.log.flatMap encRec)} L {if st.leaked then 1 else 0} X {if st.tie then 1 else 0} C {joinNats curs}"
 
